@@ -24,7 +24,7 @@ from typing import Any, Dict, List, Optional, Tuple
 from .. import rfc
 from ..engine.context import Ctx, bind_call_args, dataclass_fields
 from ..engine.exprs import norm, strip_casts
-from ..engine.patterns import simulate, stmt_of
+from ..engine.patterns import cfg_node_of, simulate, stmt_of
 from ..engine.report import Report
 from ..engine.resolve import NotConstant
 from ..engine.universe import AnalysisError, FuncInfo, own_nodes
@@ -167,19 +167,37 @@ def run(ctx: Ctx, rep: Report) -> None:
     dst = stmt_of(dcall)
     dname = dst.targets[0].id if isinstance(dst, ast.Assign) and isinstance(dst.targets[0], ast.Name) else None
     ok = False
+    detail = ""
+    from .walkmodel import assigned_value, reaching_defs
+
+    dcfg = ctx.cfg(dfn)
     for n in own_nodes(dfn.node):
         if isinstance(n, ast.Call) and norm(n.func) == "replace" and n.args and norm(n.args[0]) == dmsg:
-            kw = {k.arg: norm(k.value) for k in n.keywords}
-            ok = kw == {"scoped_pdu": f"ScopedPDU.decode({dname})"}
-    rep.check(ok, "C11-R2", dfn.site(), "the decrypted octets are parsed as scoped PDU and replace only the ciphertext in the message", key=f"{dfn.key}|decrypt-result")
+            kws = {k.arg: k.value for k in n.keywords}
+            sp_arg = kws.get("scoped_pdu")
+            if set(kws) != {"scoped_pdu"} or not (isinstance(sp_arg, ast.Call) and norm(sp_arg.func) == "ScopedPDU.decode" and len(sp_arg.args) == 1):
+                detail = f"replace({', '.join(sorted(k or '**' for k in kws))})"
+                continue
+            src = strip_casts(sp_arg.args[0])
+            if src is dcall:
+                ok = True
+            elif isinstance(src, ast.Name):
+                # the octets parsed are the plug-in's output as it is: every definition reaching the parse is the decrypt call
+                at = cfg_node_of(dcfg, n)
+                rd = reaching_defs(dcfg, src.id, at) if at is not None else []
+                vals = [assigned_value(d) for d in rd]
+                ok = bool(rd) and all(v is not None and strip_casts(v) is dcall for v in vals)
+                if not ok:
+                    detail = f"`{src.id}` reaching the parse is defined by: {[norm(v)[:60] if v is not None else '?' for v in vals]}"
+            else:
+                detail = f"parsed expression: {norm(src)[:80]}"
+    rep.check(ok, "C11-R2", dfn.site(), "the decrypted octets are parsed, unmodified, as scoped PDU and replace only the ciphertext in the message", detail, key=f"{dfn.key}|decrypt-result")
 
     from . import c10, c12
 
-    sub = Report(rep.prop, rep.tier)
-    c10.run(ctx, sub)
+    sub = ctx.sub_run("c10", rep)
     rep.adopt_rules(sub, "C11-R5", ["C10-R2"])
-    sub = Report(rep.prop, rep.tier)
-    c12.run(ctx, sub)
+    sub = ctx.sub_run("c12", rep)
     rep.adopt_rules(sub, "C11-R5", ["C12-R2"])
 
     # ------------------------------------------------------------ R3
